@@ -148,6 +148,64 @@ def validate_rust_model(pl, res, case, obs):
     return bad
 
 
+def random_layouts(pid, tier, pl, res, cov):
+    from . import randlayout
+    n = 400 if tier == "quick" else 20000
+    cs = randlayout.cases(seed(), n)
+    d = os.path.join(pl.dir, "rand")
+    os.makedirs(d, exist_ok=True)
+    path = os.path.join(d, "cases.ndjson")
+    with open(path, "w") as f:
+        for c in cs:
+            f.write(json.dumps(c) + "\n")
+    emit = os.path.join(d, "emit")
+    obs_path, _ = harness.replay(path, os.path.join(d, "rp"), ["--emit-dir", emit, "--prefix", "--project", "--style-seed", str(seed())], jobs=8)
+    obs = {o["id"]: o for o in tlc.read_ndjson(obs_path)}
+    acc8 = [(c, obs[c["id"]]) for c in cs if obs[c["id"]].get("accepted") and c["input"]["ptr"] == 8]
+    acc4 = [(c, obs[c["id"]]) for c in cs if obs[c["id"]].get("accepted") and c["input"]["ptr"] == 4]
+    lay = {}
+    lay["host"], f1 = rustobs.host(acc8, emit, os.path.join(d, "host"))
+    lay["x64"], f2 = rustobs.nocore(acc8, os.path.join(d, "nocore"), target="x86_64-pc-windows-msvc")
+    lay["i686"], f3 = rustobs.nocore(acc4, os.path.join(d, "nocore"), target="i686-pc-windows-msvc")
+    fails = {"host": f1, "x64": f2, "i686": f3}
+
+    def layout_of(tgt, cid, path_, oi):
+        l = lay[tgt].get((cid, tuple(path_)))
+        if l is None:
+            return None
+        if "offs" not in l and oi is not None:
+            l = dict(l)
+            l["offs"] = dict(zip([f["name"] for f in oi.get("fields", [])], l.get("offlist", [])))
+        return l
+
+    recs, back = [], {}
+    for c in cs:
+        o = obs[c["id"]]
+        if o["outcome"] in ("panic", "hang", "abort"):
+            continue
+        tgts = ["host", "x64"] if c["input"]["ptr"] == 8 else ["i686"]
+        for ti, tgt in enumerate(tgts):
+            if c["id"] in fails[tgt]:
+                continue
+            r = trace.record(c, o, lambda p_, oi, tgt=tgt, cid=c["id"]: layout_of(tgt, cid, p_, oi), plain=c["plain"] and pid == "C03")
+            r["id"] = c["id"] * 4 + ti
+            recs.append(r)
+            back[r["id"]] = (c, o, tgt)
+    verdicts, tst = trace.evaluate(recs, os.path.join(d, "trace"))
+    tst.pop("kf_ids", None)
+    n_eval = 0
+    for rid, viol in verdicts.items():
+        c, o, tgt = back[rid]
+        n_eval += 1
+        if pid in viol:
+            res.violation(f"random description: {pid} is false on the observed behaviour (TLC on the recorded registry, emitted items and "
+                          f"{tgt} rustc layouts; code {'accepted' if o['accepted'] else 'rejected'} it)", payload(c, o, {"target": tgt}), None)
+    cov["random_descriptions"] = {"n": len(cs), "accepted": len(acc8) + len(acc4), "records_evaluated_by_tlc": len(recs),
+                                  "rustc_rejected": {k: len(v) for k, v in fails.items()}, "tlc": tst}
+    cov["traces_validated_against_impl"] += len(recs)
+    return n_eval
+
+
 def run_layout(pid, tier):
     res = Result(pid, tier)
     pl = Pipeline(tier)
@@ -286,6 +344,9 @@ def run_layout(pid, tier):
                 res.violation(f"{pid} is false on the observed behaviour (evaluated by TLC on the recorded registry, emitted items "
                               f"and {tgt} rustc layouts; code and mirror {'disagree' if drifted else 'agree'} on this case)",
                               payload(case, obs, {"target": tgt}), None)
+    # ---- direction B proper: random descriptions beyond the exhaustive bounds, decided by TLC on the observations
+    n_rand = random_layouts(pid, tier, pl, res, cov)
+    n_checked += n_rand
     if rust_bad:
         raise ToolError("rustc model invalid: RustLayout.tla disagrees with the real compiler:\n" + "\n".join(res.notes[:5]))
     cov.update({"evaluations": n_checked, "distinct_nontrivial": len(distinct),
